@@ -374,3 +374,91 @@ func H_C03_Comb(kind, k, n, skew int) {
 	_ = Collect1(s.Compute(Src(snapshotsOf(positive("c", n)), 0)))
 	vrt.Reach("end")
 }
+
+// colTap sits between a report column and its value stream and hands values over
+// one permit at a time, so that the number of values a single Value() call takes
+// is observable without a data race (every field is written before the hand-over
+// send / close that the consumer's receive synchronises with).
+type colTap struct {
+	permit chan struct{}
+	taken  int
+	closed bool
+}
+
+func tapColumn[T any](c helper.ReportColumn) *colTap {
+	src := vrt.GetField(c, "values").(<-chan T)
+	out := make(chan T)
+	t := &colTap{permit: make(chan struct{})}
+	go func() {
+		for range t.permit {
+			v, ok := <-src
+			if !ok {
+				t.closed = true
+				close(out)
+				return
+			}
+			t.taken++
+			out <- v
+		}
+	}()
+	vrt.SetField(c, "values", (<-chan T)(out))
+	return t
+}
+
+// H_C14_Value: the report is consumed the way the report writer does it - for every
+// date row one Value() call per column, in lock-step. Every Value() call takes exactly
+// one value from its column (a call that needs a second one blocks: deadlock), no
+// column is exhausted before the last date row, and none has values left afterwards.
+// zeroPrices != 0 admits zero prices (used with the zero-denominator exploration).
+func H_C14_Value(name string, c1, c2, c3, dn, zeroPrices int) {
+	st := LookupS(name)
+	if st.KFCol != nil {
+		// strategies with recorded column findings are decided by H_C14
+		vrt.Reach("end")
+		return
+	}
+	cfg := cfg3(c1, c2, c3)
+	s := st.Make(cfg, false)
+	w := st.Warm(s)
+	n := w + dn
+	snaps := symSnapshots("", n, zeroPrices != 0) // zeroPrices: a series with missing quotes (price 0)
+	for i := range snaps {
+		setDay(snaps[i], i)
+	}
+	rep := s.Report(Src(snaps, 0))
+	taps := make([]*colTap, len(rep.Columns))
+	for i, c := range rep.Columns {
+		if c.Type() == "number" {
+			taps[i] = tapColumn[float64](c)
+		} else {
+			taps[i] = tapColumn[string](c)
+		}
+	}
+	rows := 0
+	for range rep.Date {
+		for i, c := range rep.Columns {
+			if !taps[i].closed {
+				taps[i].permit <- struct{}{}
+				_ = c.Value()
+			}
+			vrt.AssertAt("column_not_exhausted_"+c.Name(), rows, !taps[i].closed)
+			vrt.AssertAt("one_value_per_row_"+c.Name(), rows, taps[i].taken == rows+1)
+		}
+		rows++
+	}
+	for i, c := range rep.Columns {
+		if taps[i].closed {
+			continue
+		}
+		taps[i].permit <- struct{}{}
+		_ = c.Value()
+		vrt.Assert("nothing_unconsumed_"+c.Name(), taps[i].closed)
+	}
+	for i := range taps {
+		if !taps[i].closed {
+			close(taps[i].permit)
+		}
+	}
+	vrt.Assert("rows", rows >= 1 && rows <= n)
+	vrt.Reach("end")
+}
